@@ -616,7 +616,7 @@ def fp_d11(inp):
         if not fails or not all(d["has_power"] or d["copy_of"] or d["isnan_call"] for _, _, _, d in fails) \
                 or not any(d["has_power"] or d["copy_of"] for _, _, _, d in fails):
             return False
-        if repaired_away(inp, "D11"):
+        if repaired_away(inp, "D11", or_rejected=any(d["has_power"] for _, _, _, d in fails)):
             return True
         # with a kind for the power the variable is seen to receive non-unifiable kinds (the D5 situation)
         status, rfails, _ = check_program(dict(inp, clause=None, name=None), repair="D11")
@@ -702,7 +702,7 @@ def fp_minmax(inp):
         st = byid.get(d["stmt_id"])
         if not isinstance(st, lang.Assign) or not isinstance(flatten(st.rhs), (P.Min, P.Max)):
             return False
-        if d["inferred"] != repr(D.Scalar(True)) or d["value_kind"] in (repr(D.Scalar(True)), repr(D.Integer())):
+        if d["local_kind"] != repr(D.Scalar(True)) or d["value_kind"] in (repr(D.Scalar(True)), repr(D.Integer())):
             return False
     return True
 
